@@ -129,15 +129,21 @@ CLAIMED = {
              "the oracle checks on the implementation's output that no logged exchange asks about a name an authoritative local "
              "zone owns, that a question local data answers has an empty exchange log, override exactness, authoritative marking "
              "(clear-cut subclass), name errors only from an authoritative local zone, and the provenance of every record at an "
-             "owned name.",
-        note="The clause 'nothing from an upstream server is used for names the zone owns' holds for questions ABOUT owned names and "
-             "for chains the resolver follows itself (local zone, cache, one upstream reply per link: the target is re-resolved "
-             "locally), with one RECORDED exception (known_findings.json, class upstream-chain-into-owned-name, printed as "
-             "KNOWN-FINDING on every run, witnesses first in the stream): the tail of an alias chain delivered inside ONE upstream "
-             "reply is passed on as it is, so upstream's records for an owned name are returned when the alias and its target sit on "
-             "one upstream server (recursive) or whenever the forwarder chases an alias into an owned name (forwarding). The same "
-             "does not happen through the cache (a cached alias's target is re-resolved locally; corpus case). Theorems for the "
-             "network modes (done_means_no_upstream, log_names_not_owned) are being added separately; until they are listed the "
+             "owned name -- the clause 'nothing from an upstream server is used for names the zone owns' is checked without "
+             "exception (fix b2bc3c2: an upstream alias chain that leads into a locally authoritative name is cut there; theorems "
+             "C01_cut_sound, C01_upstream_chain_cut_*, C01_upstream_cached_not_owned_*).",
+        note="The clause 'nothing from an upstream server is used for names the zone owns' is checked without exception, by the "
+             "oracle on every network-mode case and by theorems: it holds for questions ABOUT owned names, for chains the resolver "
+             "follows itself (local zone, cache, one upstream reply per link: the target is re-resolved locally) and, since fix "
+             "b2bc3c2, for an alias chain delivered inside ONE upstream / forwarder reply: the accepted answer is cut just before "
+             "the first record whose owner is another name inside an authoritative local zone and the rest is resolved locally "
+             "(C01_cut_sound: the cut is total and exact; C01_upstream_chain_cut_recursive / _forwarding: what one reply "
+             "contributes; C01_upstream_cached_not_owned_recursive / _forwarding: over a whole resolution every insert_all "
+             "argument other than a referral's records holds no record owned elsewhere; the former witnesses, first in the "
+             "stream and replayed in C01_upstream_chain_cut_witness_*, now end in the zone's data; known_findings.json keeps the "
+             "entry with status fixed). The same never happened through the cache (a cached alias's target is re-resolved "
+             "locally; corpus case). Theorems for the "
+             "network modes (done_means_no_upstream, log_names_not_owned, nxdomain_only_from_auth_zone) are listed; the other "
              "network-mode clauses rest on the correspondence stream and its oracle. The server's rcode mapping is C09's. What a "
              "single zone answers for a name is C02's subject; C01's theorems are stated in terms of the zone's own result. "
              "Deviation D2: a chain leaving authority is non-authoritative (pinned test).",
